@@ -71,4 +71,7 @@ def run(ctx):
     rc = checklib.standard(ctx, SPEC)
     if ctx.tier == "thorough":
         rc = max(rc, _conc.race_run(ctx, SPEC, tier="quick"))
+    else:
+        # a 10-case slice under the race detector in the quick tier too
+        rc = max(rc, _conc.race_run(ctx, SPEC, tier="quick", env_more={"VERIF_C13_CASES": "10"}))
     return rc
